@@ -77,6 +77,7 @@ class Monitor:
         self.w = world
         self.specs = []
         self.evals = 0
+        self.observations = []
 
     # failures are dicts {what, observed, expected, key}
     @staticmethod
@@ -123,6 +124,22 @@ class Monitor:
                 sp = SpecStore(op["mode"])
                 sp.log = [(t, Cell(field=w.fields[i], shape=w.fields[i].data.shape))
                           for t, i in zip(op["times"], op["fids"])]
+                S.append(sp)
+        elif k == "fromCollection":
+            if err is None:
+                sp = SpecStore("truncate_once")
+                srcs = [S[i] for i in op["sids"]]
+                if srcs:
+                    for kk, (t, _c) in enumerate(srcs[0].log):
+                        vals = ()
+                        for src in srcs:
+                            if kk < len(src.log):
+                                vals = vals + tuple(src.log[kk][1].get())
+                        sp.log.append((t, Cell(vals=vals)))
+                    if any(len(x.log) != len(srcs[0].log) for x in srcs):
+                        # numpy broadcasting of the time lists lets storages of different length through;
+                        # the property statement does not speak about from_collection: observation only
+                        self.observations.append("from_collection combined storages with different numbers of frames")
                 S.append(sp)
         elif k in ("newField", "setField"):
             pass
